@@ -5,7 +5,10 @@ ROOT = os.path.dirname(os.path.dirname(os.path.abspath(__file__)))
 props = [json.loads(l) for l in open(os.path.join(ROOT, "properties.jsonl"))]
 
 # id -> (technique, level text, level note, design ref)
-CLAIMED = {k: (v["technique"], v["text"], v["note"], v["design_ref"]) for k, v in json.load(open(os.path.join(ROOT, "tools", "claims.json"))).items()}
+RAW = json.load(open(os.path.join(ROOT, "tools", "claims.json")))
+CLAIMED = {k: (v["technique"], v["text"], v["note"], v["design_ref"]) for k, v in RAW.items()}
+# auxiliary engines (deepenings shared by several properties) run inside a property's check: claims.json field "also": ["PEXEC", ...]
+ALSO = {k: (" --also " + ",".join(v["also"]) if v.get("also") else "") for k, v in RAW.items()}
 NOT_YET = "check not built yet (work in progress; see DESIGN.md section 8 build order)"
 
 m = {"version": 1, "setup_cmd": "./setup.sh",
@@ -18,7 +21,7 @@ for p in props:
     i = p["id"]
     if i in CLAIMED:
         tech, text, note, ref = CLAIMED[i]
-        m["checks"].append({"property_id": i, "quick_cmd": f"./check {i} --tier quick", "thorough_cmd": f"./check {i} --tier thorough",
+        m["checks"].append({"property_id": i, "quick_cmd": f"./check {i} --tier quick{ALSO[i]}", "thorough_cmd": f"./check {i} --tier thorough{ALSO[i]}",
                             "evidence_file": f"/verif/evidence/{i}.json", "replay_cmd_template": f"./check {i} --replay {{path}}", "engine": "coq",
                             "level_claimed": {"category": "proof", "text": text, "design_ref": ref}, "level_note": note, "technique": tech})
     else:
